@@ -1595,7 +1595,28 @@ class TeX(object):
 
         """
         output = []
-        for t in self:
+        context = self.ownerDocument.context
+        while 1:
+            # Only macros that TeX would expand while it scans a number
+            # (user-defined macros, registers, \thecounter) are expanded;
+            # anything else -- a closing brace, \endgroup, \end, $, \relax --
+            # ends the sequence and is left alone for whoever reads it next.
+            for t in self.itertokens():
+                self.pushToken(t)
+                break
+            else:
+                break
+            name = getattr(t, 'macroName', None)
+            if t.nodeType != Macro.ELEMENT_NODE and name is not None:
+                cls = context[name] if name in context else None
+                if not (isinstance(cls, type) and
+                        issubclass(cls, (plasTeX.NewCommand, plasTeX.Definition,
+                                         ParameterCommand, plasTeX.TheCounter))):
+                    break
+            for t in self:
+                break
+            else:
+                break
             if t.nodeType == Macro.ELEMENT_NODE:
                 self.pushToken(t)
                 break
